@@ -39,7 +39,7 @@ protocol and evidence are as designed in section 2. Deviations, all in the direc
 
 ADDITIONS = """### 10.5 What the seeded rounds changed in the checks
 
-One hundred and twenty changes from six independent rounds (fresh sub-agents, property text only; each later round was told which *kinds* of change the earlier rounds had produced
+One hundred and forty changes from seven independent rounds (fresh sub-agents, property text only; each later round was told which *kinds* of change the earlier rounds had produced
 and asked for different ones) were confirmed and run. Rounds 1-3 (60 changes): 45 were detected by the quick tier as it stood, two more only by the thorough tier, 13 not
 at all. Round 4 (20 changes; column "before" in `seeded/*-agent4/meta.json: detected_before_strengthening`, measured by running the previous commit of `/verif` against each
 changed tree): 11 detected by the quick tier as it stood, one more only by the thorough tier (C02), 8 not at all (C01, C03, C04, C06, C07, C09, C10, C18).
@@ -99,9 +99,28 @@ Every miss pointed at a *class* of input the generator did not produce, and the 
   objects. One tolerance was **tightened**: C08 used to treat "executor FAILURE masked by an assessor BLOCK" as ambiguous (either counting accepted); the statement says
   intentional blocks are never counted, the loop itself reports such a request as BLOCKED, so it is now an intentional block (quiet on the unchanged tree at all seeds tried).
   Not strengthened: C14-agent6 stays a thorough-tier detection (needs an id reused three times with a preemption in between).
+* **Round 7 (asked for: a large, mostly correct restructuring with exactly one mistranslated branch; state leaking across instances; arithmetic translation slips;
+  non-default options; truthiness where `is None` was meant; exception-class handling; copy semantics).** As it stood the quick tier detected 14 of 20; the six misses
+  (C02, C03, C06, C07, C11, C19) were missed by the thorough tier too. Big restructurings as such were no obstacle (thirteen of the fourteen detected seeds are 150-700 line
+  rewrites): the oracles read the public API only - the benign round had just made sure of that. What was missing, by class:
+  *a second object alive in the process* (four of the six: C02 names bound for the logic pathway written into a module-level template, C03 a capability check that erodes
+  the shared tool object's declaration, C06 a THRESHOLD rule object shared by all quorums, C19 a class-level halt/continue table filled by the latest constructor) -
+  C02's `pre` evaluations may now run on a pathway of their own and the names true/false occur on every pathway; C03 has `peer` steps (a second engine with its own
+  policy is handed the very tool object and asked for it); and `pbt/props/_decoys.py` gives C06-C10, C12, C13, C15, C17, C19, C20 a *decoy*: a differently configured
+  object of the same class, built after the one under test and put through a deliberately misleading script (same prompts, names and ids; opposite verdicts and limits).
+  About a third of the generated cases carry one. Seven regression mutants of this kind (a decision cache, a threshold, a template registry, a queue, a dependency graph, a
+  gene table shared by all instances) are all detected. Until then such leaks were caught only by accident, through state surviving from one *case* to the next in a
+  worker process - which is not reproducible from a replay file;
+  *values the stubs held constant, again* - C07/C08: the agents' payload (always a non-empty string) is now also "", None, 0, False, [], {}, a structure or 5000 characters;
+  *a quantifier word taken too lightly* - C11's statement lists "deep nesting"; the generator stopped at 60 levels, the decoder's RecursionError (not a ValueError) starts
+  near 1000: `deep` cases nest 150..60000 levels in eight arrangements. One **false-alarm risk** surfaced on the way and was removed: C01's audit of the `_bounded_*`
+  table wrappers compared the names in their code with a fixed list, so a correct refactor that hoisted a tuple of types into a module constant (C01-agent7 did, next to
+  its real defect) was reported as `table:unvetted-entry`; the audit now resolves every name a wrapper (or a module-level helper it calls, or an operator stand-in)
+  mentions and judges what it *reaches* - constants, plain types, exceptions, math / operator, vetted functions and harmless builtins pass; getattr, __import__, open and
+  the like do not (three new mutants).
 * **One oracle bug found on the way** (no registered run was affected): C02 compared complex NaN results with `==`; now component-wise with NaN == NaN.
 
-After these changes 119 of the 120 seeded changes are detected by the quick tier and C14-agent6 by the thorough tier (table above; `python3 tools/run_mutants.py --seeded` re-runs them).
+After these changes 139 of the 140 seeded changes are detected by the quick tier and C14-agent6 by the thorough tier (table above; `python3 tools/run_mutants.py --seeded` re-runs them).
 """
 
 
